@@ -72,6 +72,17 @@ def wiring(ctx):
         ctx.ob("C09.wiring", "update", False, f"raises {R.exc!r}", mloc)
         return
     ctx.ob("C09.wiring", "apply_gbs called once per solver step", len(R.gbs_calls) == R.steps, f"{len(R.gbs_calls)} calls for {R.steps} steps", mloc)
+    # the sliding step is unconditional: no data-dependent early exit of the step function, and it also runs at the boundary parameter values
+    exits = [(g, o, gloc, fn) for g, o, gloc, fn in R.I.guards if fn.split(".")[-1] == "perform_step"]
+    ctx.ob("C09.wiring", "no data-dependent early exit in the solver-step function", not exits,
+           "; ".join(f"{gloc}: leaves the step ({o[0]}) when {g!r}"[:160] for g, o, gloc, fn in exits[:2]) +
+           " — grains below the threshold would then be neither floored nor frozen", exits[0][2] if exits else mloc)
+    for name, kw in (("M* = 0", {"gbm_mobility": ZERO}), ("chi = 0", {"gbs_threshold": ZERO}), ("lambda* = 0", {"nucleation_efficiency": ZERO}),
+                     ("chi = 0.9", {"gbs_threshold": lift(9) / 10})):
+        Rv = driver.run_update(ctx, N=N, nsteps=2, param_overrides=kw)
+        ctx.ob("C09.wiring", f"apply_gbs called once per solver step ({name})", Rv.exc is None and len(Rv.gbs_calls) == Rv.steps and
+               all(lift((dict(zip(["orientations", "fractions", "gbs_threshold"], a)) | k_).get("gbs_threshold")) == Rv.params["gbs_threshold"] for a, k_, _ in Rv.gbs_calls),
+               f"{len(Rv.gbs_calls)} calls for {Rv.steps} steps" if Rv.exc is None else f"raises {Rv.exc!r}", mloc)
     for k, (args, kw, live) in enumerate(R.gbs_calls, 1):
         names = ["orientations", "fractions", "gbs_threshold", "orientations_prev", "n_grains"]
         a = dict(zip(names, args))
